@@ -276,6 +276,24 @@ def decide(prop, r, tier, seed, meta):
                 if any(match_known(f, t, known0) for t in P.failure_tags(f)):
                     continue
                 dep_fail.append(f)
+    if prop == "C16":
+        # panic freedom: the functions that carry panic-site obligations (or clauses / call preconditions tagged C16) were
+        # verified ASSUMING the contracts of what they call, and assuming every earlier invariant / hint of their own body
+        # (Verus assumes a failed assertion or invariant downstream, which masks the sites after it).  A failure that is not
+        # itself charged to C16 but sits in such a function or in something it reaches: undecided, never a silent exit 0.
+        mine_fns = {p_["fn"] for p_ in r.panic_sites} | {ob["fn"] for ob in obs} | {c["caller"] for c in calls}
+        reach = call_reach(em, r.lines, mine_fns)
+        for f in r.an.failures:
+            if prop in P.failure_tags(f) or f.get("cascade_of_panic"):
+                continue
+            if f["fn"] in reach:
+                if f["fn"] in mine_fns and f["kind"] == "post":
+                    # a failed postcondition does not mask the sites of its own body; callers are covered through `reach`
+                    if not any(f["fn"] in call_reach(em, r.lines, {g}) for g in mine_fns if g != f["fn"]):
+                        continue
+                if any(match_known(f, t, known0) for t in P.failure_tags(f)):
+                    continue
+                dep_fail.append(f)
     undec = [u for u in r.an.undecided if u["fn"] is None or any(u["fn"] == f["key"] and prop in f["tags"] for f in em.functions)]
     # a failure inside a function some of whose annotations could not be placed (its source changed shape) cannot be told
     # from a lost proof hint: such failures are reported as UNDECIDED (exit 2), never as a violation
@@ -323,7 +341,8 @@ def decide(prop, r, tier, seed, meta):
         out.append("UNDECIDED property=%s: %s not discharged, but the enclosing function calls external functions that have no model here (%s); their results are unconstrained, so this is an unsupported construct, not a violation" % (
             prop, ",".join(fl)[:400], ", ".join(d.split("]")[0].split("[")[-1] for d in r.havoc)[:300]))
         code = 2
-    if dep_fail:
+    if dep_fail and not new_fail:
+        # (an obligation of this property itself failing is a violation whatever else its callees do)
         fl = sorted({"%s (%s)" % (f["fn"].split(":")[-1], (f["ob"] or f["kind"]).split("#")[-1]) for f in dep_fail})
         out.append("UNDECIDED property=%s: its obligations are discharged, but they rest on the contracts of functions they call, and these are no longer established: %s" % (prop, "; ".join(fl)[:500]))
         code = 2
